@@ -35,7 +35,10 @@ as reference values and isinstance arguments; `breadth` -- same operation names
 in several classes, dynamic metamodel built operations-first / parameters
 afterwards: inspect.signature and calls; `ctor-keywords` -- instances made
 through constructor keywords (explicit None, lists / tuples, wrong values):
-value, eIsSet, saved document (these three replayed by scenario_replay)."""
+value, eIsSet, saved document; `construction` -- the dynamic metamodel put
+together in other ways per class (super types by constructor / append / extend
+/ += / assignment / insert, features and operations by append / extend) under
+the clash and population histories (these four replayed by scenario_replay)."""
 import copy
 import os
 import tempfile
@@ -169,7 +172,8 @@ def new_sdstats():
             'classes_per_case': {}, 'features_per_class': {}, 'cases_meeting_theorem_premises': 0,
             'with_opposites': 0, 'with_defaults': 0, 'with_diamond': 0, 'with_abstract': 0, 'class_flags': {},
             'body_cases': 0, 'body_python_raised': 0, 'body_entries': {}, 'naming_cases': 0, 'model_calls': 0,
-            'behaviour_cases': 0, 'behaviour_calls': 0, 'behaviour_outcomes': {}, 'rerender_cases': 0}
+            'behaviour_cases': 0, 'behaviour_calls': 0, 'behaviour_outcomes': {}, 'rerender_cases': 0,
+            'construction_super_styles': {}}
 
 
 def eclasses_of(world, mm):
@@ -426,6 +430,26 @@ def ctor_scenarios(ctx, out, model=None, st=None):
         behave_case(ctx, out, st, 'ctor-keywords', D, sd.ctor_history(D, rng), sd.CtorBehaviour)
 
 
+def construction_scenarios(ctx, out, model=None, st=None):
+    """the dynamic metamodel put together in other ways, drawn per class (super types: constructor argument, append,
+    extend, +=, whole-list assignment, insert(0, ..); features and operations: append / extend): the instance
+    histories of `clash` (inherited members, MRO) and of `population` (containment typed by super types,
+    allInstances of super types) on every rendering"""
+    st = st if st is not None else new_sdstats()
+    rng = common.rng_for(ctx.seed, 'C13:construction')
+    for i in range(20 if ctx.tier != 'thorough' else 120):
+        if i % 2:
+            D = sd.draw_build_styles(sd.gen_population_descr(rng), rng)
+            behave_case(ctx, out, st, 'construction', D, sd.population_history(D, rng), sd.Population)
+        else:
+            D = sd.draw_build_styles(sd.gen_clash_descr(rng), rng)
+            behave_case(ctx, out, st, 'construction', D, sd.behave_history(D, rng), None)
+        for c in D['classes']:
+            if c['supers']:
+                k = c['build']['supers']
+                st['construction_super_styles'][k] = st['construction_super_styles'].get(k, 0) + 1
+
+
 def breadth_scenarios(ctx, out, model=None, st=None):
     """operations of the same names in several classes; the dynamic metamodel is built breadth-first (operations
     first, parameters described afterwards): inspect.signature and call outcomes against the static renderings"""
@@ -505,6 +529,7 @@ def run(ctx, out):
     sdstats = new_sdstats()
     # first: allInstances walks EVERY live EObject of the process (EObject._instances), cheap only while few exist
     population_scenarios(ctx, out, model, sdstats)
+    construction_scenarios(ctx, out, model, sdstats)
     samples = []
     distinct = set()
     from harness import kimpl
@@ -618,9 +643,9 @@ def run(ctx, out):
 
 def replay(ctx, rep):
     case = rep['case']
-    if case.get('scenario') in ('nonmembers', 'breadth', 'ctor-keywords'):
+    if case.get('scenario') in ('nonmembers', 'breadth', 'ctor-keywords', 'construction'):
         return common.scenario_replay(ctx, rep, {'nonmembers': offers_scenarios, 'breadth': breadth_scenarios,
-                                                 'ctor-keywords': ctor_scenarios})
+                                                 'ctor-keywords': ctor_scenarios, 'construction': construction_scenarios})
     if case.get('scenario') == 'rerender':
         d = rerender_difference(case['behave'], case['revised'])
         print('REPRODUCED ' + str(d)[:400] if d is not None else 'not reproduced')
